@@ -320,6 +320,55 @@ func (c *Ctx) socketLifecycleHelper(cc *ssa.CallCommon) bool {
 	return ok
 }
 
+// writeErrorsRule: the write function reports an error only when a socket
+// operation did - every returned error is nil, the error result of
+// WriteString / Flush on the connection writer, or that of the writer-leaf
+// helper. The send goroutine treats any error as a dead link and tears the
+// connection down, so a validation error on a line would end a healthy
+// connection.
+func (c *Ctx) writeErrorsRule(rule string) {
+	r, a := c.R, c.A
+	wf := c.Func(c.Client, "(*Conn).write")
+	if !r.Anchor(rule, "the write function of the send goroutine", wf != nil) {
+		return
+	}
+	leaf, via := c.writerLeaf(wf)
+	n := 0
+	check := func(fn *ssa.Function) {
+		funcInstrs(fn, func(in ssa.Instruction) {
+			rt, ok := in.(*ssa.Return)
+			if !ok || len(rt.Results) != 1 {
+				return
+			}
+			for _, o := range c.originsLocal(retVal(rt, 0)) {
+				n++
+				okE, why := false, "returns "+o.String()+", which is not the error of a socket operation"
+				switch t := o.(type) {
+				case *ssa.Const:
+					okE, why = t.Value == nil, "nil"
+				case *ssa.Extract:
+					if call, isC := t.Tuple.(*ssa.Call); isC && len(call.Call.Args) > 0 && c.derivesFromField(call.Call.Args[0], a.IO) {
+						okE, why = true, "error of "+calleeShort(&call.Call)
+					}
+				case *ssa.Call:
+					if len(t.Call.Args) > 0 && c.derivesFromField(t.Call.Args[0], a.IO) && !t.Call.IsInvoke() {
+						okE, why = true, "error of "+calleeShort(&t.Call)
+					}
+					if via != nil && t == via {
+						okE, why = true, "error of the socket-write helper"
+					}
+				}
+				r.Add(rule, fmt.Sprintf("write-error:%s#%d", c.FuncKey(fn), n), c.InstrPos(rt), c.FuncKey(fn), "the write function fails only when the socket does", okE, why)
+			}
+		})
+	}
+	check(wf)
+	if leaf != nil && leaf != wf {
+		check(leaf)
+	}
+	r.Floor(rule, "error results of the write function", n, 2)
+}
+
 // writerLeaf: the function that performs the socket write for writeFn: writeFn
 // itself when it calls WriteString on the connection writer, otherwise the
 // unexported client function that does and that writeFn calls exactly once,
